@@ -180,8 +180,12 @@ template<typename Scalar, size_t DIM>
 VectorOfEigenVector<typename RayCasting<Scalar, DIM>::CellIndexes>
 RayCasting<Scalar, DIM>::cast(const PointType & originPoint, const PointType & endPoint)
 {
-  setOriginPoint(originPoint);
-  return cast(endPoint);
+  // Either argument may refer to this object's own origin or end point
+  // (getOriginPoint(), getEndPoint()), so take copies before overwriting them.
+  const PointType origin = originPoint;
+  const PointType end = endPoint;
+  setOriginPoint(origin);
+  return cast(end);
 }
 
 //-----------------------------------------------------------------------------
